@@ -86,6 +86,20 @@ fn main() {
             // `valgrind --tool=cachegrind --cache-sim=no` by C17 to obtain an instruction count
             std::process::exit(props::c17::parse_only(args.get(2).map(String::as_str).unwrap_or("")));
         }
+        "rcore" => {
+            // rcore <file>: the reference checker's verdict on a source file (debugging aid)
+            let src = std::fs::read_to_string(args.get(2).map(String::as_str).unwrap_or("")).unwrap_or_default();
+            let h = std::thread::Builder::new().stack_size(1 << 30).spawn(move || match props::c07::parse_to_h(&src) {
+                Some(h) => match typed::judge_source(&h) {
+                    typed::SourceVerdict::WellTyped(nbe, v) => println!("well typed; type head: {}; fuel left {}", nbe.head(&v), nbe.fuel.get()),
+                    typed::SourceVerdict::IllTyped(w) => println!("ill typed: {w}"),
+                    typed::SourceVerdict::IllScoped(w) => println!("ill scoped: {w}"),
+                    typed::SourceVerdict::Unknown => println!("unknown (fuel)"),
+                },
+                None => println!("not parsed by the reference grammar"),
+            });
+            let _ = h.map(|h| h.join());
+        }
         "show" => {
             // show <prop> <tier> <section> <idx>: print the input of a case without running it
             let Some(p) = props::find(&args[2]) else { usage() };
